@@ -213,6 +213,34 @@ Definition iwrites (it : item) : list N :=
   | IFf _ _ => []
   end.
 
+Fixpoint ssupported (D : decls) (s : stmt) {struct s} : bool :=
+  match s with
+  | SAssign _ e => supported D e
+  | SAssignSel _ _ _ e => supported D e
+  | SIf c t f =>
+      supported D c &&
+      (fix go (l : list stmt) : bool := match l with [] => true | s' :: r => ssupported D s' && go r end) t &&
+      (fix go (l : list stmt) : bool := match l with [] => true | s' :: r => ssupported D s' && go r end) f
+  | SCase sel arms dflt =>
+      supported D sel &&
+      (fix pick (l : list (list expr * list stmt)) : bool :=
+         match l with
+         | [] => true
+         | (pats, body) :: r =>
+             forallb (supported D) pats &&
+             (fix go (l : list stmt) : bool := match l with [] => true | s' :: r => ssupported D s' && go r end) body &&
+             pick r
+         end) arms &&
+      (fix go (l : list stmt) : bool := match l with [] => true | s' :: r => ssupported D s' && go r end) dflt
+  end.
+
+Definition isupported (D : decls) (it : item) : bool :=
+  match it with
+  | IAssign _ e => supported D e
+  | IComb body => forallb (ssupported D) body
+  | IFf r body => match r with Some l => forallb (ssupported D) l | None => true end && forallb (ssupported D) body
+  end.
+
 (* executable well-formedness of a comb order (what the generator promises; checked by the reference
    driver before a program is used): no item writes what an earlier item reads, and no variable has
    two drivers *)
